@@ -98,7 +98,10 @@ def class_of(db, f):
     n = 0
     while g is not None and g.get('lambda') and g.get('parent_key') and n < 4:
         g = db.get(g['parent_key']); n += 1
-    return norm((g or {}).get('class') or '')
+    c = norm((g or {}).get('class') or '')
+    if c and '::' not in c and g is not None and '::' in (g.get('nname') or ''):
+        c = g['nname'].rsplit('::', 1)[0]        # a local class: its printed name lacks the enclosing function, the method's name has it
+    return c
 
 
 def is_helper(db, caller, callee):
@@ -120,7 +123,12 @@ def derives(db, cls, base, depth=4):
         return cache[k]
     r = False
     if depth > 0:
-        for c in db.class_insts(cls)[:1]:
+        cands = db.class_insts(cls)[:1]
+        if not cands and '(' in cls:
+            # a local class: the record carries the concrete argument types of the enclosing function, methods carry the pattern's
+            k_ = re.sub(r'\(.*\)', '()', cls)
+            cands = [c for c in db.classes.values() if re.sub(r'\(.*\)', '()', norm(c['name'])) == k_][:1]
+        for c in cands:
             for b in c.get('bases', []):
                 bn = norm(b.replace('class ', '').replace('struct ', ''))
                 if bn == base or base.endswith('::' + bn) or derives(db, bn if '::' in bn else 'cocls::' + bn, base, depth - 1):
